@@ -17,5 +17,6 @@ TemplatesV ==
     TSellSfl("", q1, <<12, 0>>, "0", Z, FALSE),
     TSfla("", q1, <<2, 0>>) }
 GapsV == {0, 30, 31}
+SplitRatiosV == {<<2, 1>>, <<1, 2>>, <<3, 2>>, <<1, 3>>}
 OpeningsV == {<<>>}
 =============================================================================
